@@ -170,7 +170,7 @@ class C19(Check):
     ]
 
     def runs(self, tier):
-        return 1500 if tier == "quick" else 80000
+        return 4000 if tier == "quick" else 80000
 
     def make(self, ctx, index):
         rng = core.rng_for(ctx.seed, "c19", index)
